@@ -1,3 +1,4 @@
+import Lm.Inst.CoreTie
 import Lm.Props.C02
 /-! # C08 — Messages to one module arrive in send order; poison pill is ordered too
 
@@ -52,5 +53,11 @@ theorem C08_pill_is_ordered (s : St) (m r : ModId) (md : Mod) (q : List Msg)
     { sender := some m, topic := some T_POISONPILL, payload := 0, sys := true, holder := none, sub := none, pill := true }
     .direct r md q hm (Or.inl he) hp hroom
   exact ⟨c, md', h1, h2, h3⟩
+
+
+/-- tie A: the guard prefixes of the entry points this property is about, re-extracted from the source on every run,
+are the ones the model transcribes (`Lm.Inst.CoreTie`) -/
+theorem C08_guards_in_source :
+    Lm.Inst.CoreTie.slice Lm.Generated.CoreGuards.guards ["m_mod_ps_poisonpill", "m_mod_ps_tell", "m_mod_ps_publish"] = Lm.Inst.CoreTie.slice Lm.Inst.CoreTie.expected ["m_mod_ps_poisonpill", "m_mod_ps_tell", "m_mod_ps_publish"] := by decide
 
 end Lm.Props.C08
